@@ -61,8 +61,9 @@ def tie(tier, seed, replay):
     lat = c03_par.run_parallel(tier, seed)
     mism += lat["mismatches"]
     # aggregates over lattice relations under ascent_par! (gen/c04_lat.py; the serial runs of the same family are C04's)
-    from .. import c04_lat
-    latagg = c04_lat.run(tier, seed + 1, modes=("par",), tag="c02latagg")
+    # every parallel run is also compared with the SERIAL MODEL column of LatEngine/LatAggEval.v (c02_par_lat_agg_equals_serial)
+    from .. import c02_latagg
+    latagg = c02_latagg.check(tier, seed + 1)
     mism += latagg["mismatches"]
     distinct, dist = set(), {}
     for jid, (r, irp, pool, seeds) in meta.items():
